@@ -4,7 +4,8 @@ import re
 import glob
 from .lexer import lex, join, GHOST_OPEN, GHOST_CLOSE
 from .items import parse_expansion, match_close
-from .overlay import parse_overlay_file, subst, split_ghost, transplant, drop_trailing_commas, DIGITS
+from .overlay import parse_overlay_file, subst, split_ghost, transplant, drop_trailing_commas, DIGITS, split_pair
+from .props import PAIR_UNITS
 from . import rewrites as R
 
 
@@ -109,7 +110,7 @@ class Overlay:
 
 class Item:
     """one generated item"""
-    __slots__ = ('entry', 'key', 'kind', 'container', 'impl_header', 'modpath', 'full', 'stub', 'ratio', 'identical', 'log', 'name', 'ghost_counts', 'code_tokens', 'canary_full', 'n_canaries', 'header_tokens', 'variant', 'assumed', 'out_tokens', 'body_index', 'is_mp')
+    __slots__ = ('entry', 'key', 'kind', 'container', 'impl_header', 'modpath', 'full', 'stub', 'ratio', 'identical', 'log', 'name', 'ghost_counts', 'code_tokens', 'canary_full', 'n_canaries', 'header_tokens', 'variant', 'assumed', 'out_tokens', 'body_index', 'is_mp', 'impl_ghost')
 
 
 def _proof_fn_stub(text):
@@ -198,7 +199,8 @@ class Generator:
     def __init__(self, expansion, overlay, digit, mode):
         self.x = expansion
         self.ov = overlay
-        self.digit = digit
+        # digit 'AxB' = pair instantiation: $D.. from A, $D2.. from B; units in PAIR_UNITS exist only then
+        self.digit, self.digit2 = split_pair(digit)
         self.mode = mode
         self.items = None
         self.problems = []
@@ -209,23 +211,38 @@ class Generator:
             return False
         if 'digits' in o and self.digit not in o['digits'].split(','):
             return False
+        if (e.unit in PAIR_UNITS or 'pairs' in o) and self.digit2 is None:
+            return False
+        if 'pairs' in o:
+            # pairs=wide2narrow (digit2 wider than digit) | narrow2wide | explicit list u64xu32,...
+            a, b = int(DIGITS[self.digit]['DB']), int(DIGITS[self.digit2]['DB'])
+            kind = 'wide2narrow' if b > a else 'narrow2wide' if b < a else 'same'
+            if kind not in o['pairs'].split(',') and f'{self.digit}x{self.digit2}' not in o['pairs'].split(','):
+                return False
         return True
 
     def build_items(self):
         items = []
+        seen_raw = set()
         for e in self.ov.entries:
             if not self.applicable(e):
                 continue
+            if e.kind in ('raw', 'spec'):
+                # two units may declare the same shared item under the same entry name (the `CastFrom`
+                # trait: units cast and xcast); it is emitted once, the first unit in file order wins
+                if (e.kind, e.key) in seen_raw:
+                    continue
+                seen_raw.add((e.kind, e.key))
             it = Item()
             it.entry = e
             it.kind = e.kind
-            it.key = subst(e.key, self.digit)
+            it.key = subst(e.key, self.digit, self.digit2)
             it.log = {}
             it.ratio = 1.0
             it.identical = True
             it.ghost_counts = {}
             it.code_tokens = 0
-            text = subst(e.text, self.digit)
+            text = subst(e.text, self.digit, self.digit2)
             it.n_canaries = 0
             it.canary_full = None
             it.header_tokens = None
@@ -233,12 +250,13 @@ class Generator:
             it.out_tokens = None
             it.body_index = None
             it.is_mp = False
+            it.impl_ghost = None
             it.assumed = 'assumed' in e.opts
             if e.kind in ('raw', 'spec'):
                 it.full = text
                 it.stub = text
                 it.name = e.key
-                it.modpath = tuple(subst(e.opts['module'], self.digit).split('::')) if 'module' in e.opts else ()
+                it.modpath = tuple(subst(e.opts['module'], self.digit, self.digit2).split('::')) if 'module' in e.opts else ()
                 it.impl_header = None
             elif e.kind == 'proof':
                 it.full = text
@@ -301,6 +319,10 @@ class Generator:
             o = l[0]
             sig, body = R.const_to_fn(o.tokens, o.impl is not None, log)
             impl, modpath = o.impl, o.modpath
+        if 'r15' in e.opts:
+            if e.kind != 'fn' or impl is None or ' for ' not in impl:
+                raise R.Unsupported('R15 applies to methods of a trait impl only')
+            sig, body, impl = R.r15_rng(sig, body, impl, self.x.impl_types.get(impl, []), log)
         self_is_bnum = impl is not None and self.x.impl_self(impl) in R.BNUM_TYPES
         sig, body = R.r4_r5_params(sig, body, log) if e.kind == 'fn' else (sig, body)
         toks = sig + body
@@ -420,6 +442,14 @@ class Generator:
         it.modpath = modpath
         it.name = it.key
         it.code_tokens = len(C)
+        if cmap[0] > 0 and it.kind == 'fn' and impl is not None:
+            # a ghost region in front of the first real token of a method = ghost members of the
+            # enclosing impl block (e.g. `open spec fn cast_req/cast_post` of a trait impl): they are
+            # emitted inside the `impl HEADER { .. }` block before the fn, for the full item and its stub alike
+            k0 = cmap[0]
+            it.impl_ghost = join(out[:k0])
+            out = out[k0:]
+            cmap = [c - k0 for c in cmap]
         if it.kind == 'struct':
             it.full = join(out)
             it.stub = it.full
@@ -571,6 +601,7 @@ class Generator:
         m.variant = None
         m.assumed = it.assumed
         m.is_mp = True
+        m.impl_ghost = None
         m.full = join(h2 + b2)
         m.canary_full = m.full
         m.n_canaries = 0
@@ -609,8 +640,17 @@ class Generator:
                 node = node.setdefault(('mod', m), {})
             node.setdefault('items', []).append(it)
 
+        def visible(it):
+            # `scope=REGEX` (entry option, or file-level `//! scope REGEX` default): the entry is emitted only in
+            # its own unit and in units whose name matches; keeps large trait-impl families (ops) out of
+            # unrelated units' files and lets two units state different contracts for one external-trait impl
+            sc = it.entry.opts.get('scope')
+            if sc is None or it.entry.unit == unit:
+                return True
+            return re.fullmatch(sc, unit) is not None
+
         def emit_node(node, depth):
-            its = node.get('items', [])
+            its = [it for it in node.get('items', []) if visible(it)]
             # variants: several overlay entries (different units) for one function
             groups = {}
             for it in its:
@@ -656,6 +696,8 @@ class Generator:
                             if ' for ' in it.impl_header and not it.is_mp:
                                 for ty in self.x.impl_types.get(it.impl_header, []):
                                     emit(ty)
+                        if it.impl_ghost:
+                            emit(it.impl_ghost)
                         emit(body, it if own else None)
                         if not same_trait_impl(it, next_it):
                             emit('}')
